@@ -3,6 +3,7 @@
 HARNESSES = {
     'cbl': dict(sources=['src/h_cbl.cpp']),
     'queue': dict(sources=['src/h_queue.cpp']),
+    'disp': dict(sources=['src/h_disp.cpp']),
 }
 
 
@@ -71,7 +72,7 @@ prop('C01', 'exploration',
      COMMON_ASSUME + ['argument values are sampled from int/Tracked pools', 'insert/remove through a handle of a different live list are not generated (documented UB)'],
      q, t)
 
-q, t = std_stages('cbl', 2500, 100000, fuzz_runs=1000000)
+q, t = multi_stages([('cbl', 2500, 100000), ('disp', 2000, 60000)], fuzz=[('cbl', 1000000)])
 prop('C02', 'exploration',
      'rapidcheck-generated re-entrant programs: callbacks carry scripts (<=6 ops, nesting depth <=4, fuel 300 activations) that append/prepend/insert/'
      'remove (self, others, already removed), enumerate and re-invoke the list being invoked; lock-step comparison with a snapshot-filter model; '
@@ -114,6 +115,18 @@ prop('C13', 'exploration',
      'C05 histories on OrderedQueueList queues with 4 comparators (ascending key, descending key, coarse key/2 with ties between distinct keys, comparator on an argument); model keeps pending '
      'stably sorted by (comparator class, enqueue sequence); non-trivial = a tie between events of different rounds, slot reuse, >=3 events consumed',
      COMMON_ASSUME, q, t)
+
+q, t = std_stages('disp', 2500, 100000, fuzz_runs=500000)
+# argument evaluation order is compiler-dependent: the same harness is also built with g++
+q['stages'].append(dict(engine='rc', harness='disp', variant='gxx', procs=8, cases=1500, timeout=900))
+t['stages'].append(dict(engine='rc', harness='disp', variant='gxx', procs=16, cases=50000, timeout=3600))
+prop('C04', 'exploration',
+     'rapidcheck-generated EventDispatcher histories over 10 configurations (keys: int incl. INT_MIN/MAX, enum class, std::string incl. "", embedded NUL and non-SSO, user ordered key, user hashed key with '
+     'colliding hash; prototypes by value / by const reference / event excluded / getEvent policy; ArgumentPassing auto/include/exclude; unordered_map, std::map, user map) with dispatches whose arguments '
+     'are lvalues or temporaries and listeners taking arguments by value (stealing them) or by reference; oracle = per-key list model + argument summaries + caller lvalues unchanged; '
+     'non-trivial = >=2 keys with listeners, a dispatch with a temporary key whose first listener takes its arguments by value, >=2 listeners on that key',
+     COMMON_ASSUME + ['key/prototype universe is the 10-row configuration table', 'insert/remove through a handle of another event of the same dispatcher are not generated (documented UB)'],
+     q, t)
 
 
 _ALL = ['C%02d' % i for i in range(1, 21)]
